@@ -126,7 +126,7 @@ LEVEL1 = ATOMS + [("add", A, B), ("add", A, ("C", 1)), ("add", ("item", Cc, "k")
                   ("cond", True, A, B), ("cond", False, A, B), ("cond", False, B, A), ("list", A, ("cond", False, A, B)), ("list", ("cond", False, A, B), A),
                   ("list", ("cond", True, ("add", A, B), ("C", 0)), ("dict", ("item", Cc, "k"))), ("add", ("cond", True, A, B), ("attr", Tt, "x")),
                   ("cond", True, ("list", A, ("dict", B)), ("C", 0)), ("item", ("cond", True, Cc, Cc), "k"), ("list", ("item", Cc, "l"), ("add", A, A))]
-SHAPES = ["x", "x,y", "x,y=", "x=,y="]
+SHAPES = ["x", "x,y", "x,y=", "x=,y=", "y=,x="]
 n = 0
 w = None
 samples = []
@@ -144,7 +144,7 @@ def expected_rows(shape, tx, ty, a):
     elif shape == "x,y=":
         rows[(0, None)] = (val(tx, a), ups(tx))
         rows[(None, "y")] = (val(ty, a), ups(ty))
-    else:
+    else:       # both as keywords, written in either order
         rows[(None, "x")] = (val(tx, a), ups(tx))
         rows[(None, "y")] = (val(ty, a), ups(ty))
     rows[(None, "d")] = (7, set())     # the defaulted parameter: recorded as a keyword argument
@@ -158,6 +158,8 @@ def call_use(shape, tx, ty):
         return use(build(tx), build(ty))
     if shape == "x,y=":
         return use(build(tx), y=build(ty))
+    if shape == "y=,x=":
+        return use(y=build(ty), x=build(tx))      # keywords written in non-alphabetical order
     return use(x=build(tx), y=build(ty))
 
 
@@ -221,4 +223,4 @@ for shape, tx, ty in programs:
 
 finish(w is not None, witness=w, evaluations=n, samples=samples,
        bound=f"{len(programs)} programs: {len(LEVEL1)} argument terms over direct results, getitem, getattr, operators, lists / dicts / tuples, cond (taken and untaken branches, equal calls inside and outside), "
-             "4 call shapes (positional, keyword, defaults), each run twice when it depends on the redefined producer")
+             "5 call shapes (positional, keywords in either order, defaults), each run twice when it depends on the redefined producer")
